@@ -37,7 +37,8 @@ func (t *XMPPTransport) Connect() (string, error) {
 
 	t.conn, err = net.DialTimeout("tcp", t.Config.Address, time.Duration(t.Config.ConnectTimeout)*time.Second)
 	if err != nil {
-		return "", NewConnError(err, true)
+		// The server cannot be reached right now: worth another attempt later
+		return "", NewConnError(err, false)
 	}
 
 	// A new connection starts in clear text, whatever the previous one had negotiated
@@ -53,7 +54,7 @@ func (t *XMPPTransport) Connect() (string, error) {
 func (t *XMPPTransport) StartStream() (string, error) {
 	if _, err := fmt.Fprintf(t, t.openStatement, t.Config.Domain); err != nil {
 		t.Close()
-		return "", NewConnError(err, true)
+		return "", NewConnError(err, false)
 	}
 
 	sessionID, err := stanza.InitStream(t.GetDecoder())
